@@ -105,3 +105,85 @@ def chase(fn, op, depth=0):
     if x["k"] == "use":
         return chase(fn, x["a"], depth + 1)
     return ("rv", x)
+
+
+def _uses_defs(fn):
+    """per block: (locals used before any definition in the block, locals fully defined in the block)"""
+    out = []
+    for b in fn.blocks:
+        use, de = set(), set()
+
+        def u(l):
+            if l not in de:
+                use.add(l)
+
+        def op(o):
+            if isinstance(o, dict) and o.get("k") in ("copy", "move"):
+                u(o["place"]["l"])
+                for e in o["place"]["p"]:
+                    if isinstance(e, dict) and "idx" in e:
+                        u(e["idx"])
+        for st in b["stmts"]:
+            if st["k"] == "assign":
+                rv = st["rv"]
+                for key in ("a", "b"):
+                    if key in rv:
+                        op(rv[key])
+                for o in rv.get("ops", []) or []:
+                    op(o)
+                if "place" in rv:
+                    u(rv["place"]["l"])
+                lhs = st["lhs"]
+                if lhs["p"]:
+                    u(lhs["l"])
+                else:
+                    de.add(lhs["l"])
+            elif st["k"] == "setdiscr":
+                u(st["lhs"]["l"])
+        t = b.get("term") or {}
+        k = t.get("k")
+        if k == "call":
+            for a in t.get("args", []):
+                op(a)
+            if t.get("fnop"):
+                op(t["fnop"])
+            d = t.get("dest")
+            if d is not None:
+                if d["p"]:
+                    u(d["l"])
+                else:
+                    de.add(d["l"])
+        elif k == "switch":
+            op(t.get("discr"))
+        elif k == "assert":
+            op(t.get("cond"))
+            for o in t.get("ops", []) or []:
+                op(o)
+        elif k == "drop":
+            pl = t.get("place")
+            if isinstance(pl, dict):
+                u(pl["l"])
+        elif k == "return":
+            u(0)
+        out.append((use, de))
+    return out
+
+
+def live_in(fn, block):
+    """locals live on entry to `block` (backward dataflow over normal edges)"""
+    cache = getattr(fn, "_live_cache", None) if hasattr(fn, "__dict__") else None
+    ud = _uses_defs(fn)
+    n = len(fn.blocks)
+    live = [set() for _ in range(n)]
+    changed = True
+    while changed:
+        changed = False
+        for b in range(n - 1, -1, -1):
+            out = set()
+            for s in fn.succ(b):
+                out |= live[s]
+            new = ud[b][0] | (out - ud[b][1])
+            if new != live[b]:
+                live[b] = new
+                changed = True
+    return live[block]
